@@ -9,7 +9,7 @@ from . import mon
 from . import ref as R
 from .gen import SpecProblem, make_spec, rng_for
 
-WRAPPER_MODULES = ("scale", "cons_problem", "eval", "iterate", "transform")
+WRAPPER_MODULES = ("scale", "cons_problem", "eval", "iterate", "transform", "implicit_func")
 EXEMPT_SITES = ("deriv_check:deriv_check", "scale:create_scaling")
 
 
